@@ -17,6 +17,7 @@ import (
 // recorded.
 func modelDiff(t *rapid.T, c *run.Collector, check string, e ast.Expr, text string, doc jv.Val, res model.Res) bool {
 	node := run.FromVal(doc)
+	run.Watch(c, check, run.Call{API: "search", Expr: text, Doc: &node})
 	out := run.Search(text, node.Build())
 	msg := run.CheckAgainst(res, out)
 	api := "search"
